@@ -21,8 +21,10 @@ PROPERTY = "C12"
 LEVEL = "exploration"
 RULE = ("(A) template-generated messages restricted to what LLSD can carry (XML-legal text without CR, finite floats), every "
         "template name in the thorough tier: message -> LLSD dict -> message and message -> LLSD XML -> message, compared by "
-        "value at the template's types, plus EventQueueManager.inject_message queues exactly that dict; (B) generated LLSD trees "
-        "(depth <= 4): undef, bool, S32, finite reals incl. -0.0, strings (newlines, quotes, backslashes, non-BMP), binary, uri, "
+        "value at the template's types, the dict form converted twice, the same message as decoded from its datagram (byte fields "
+        "are then the library's own bytes flavours) through both forms, plus EventQueueManager.inject_message queues exactly that "
+        "dict; (B) generated LLSD trees "
+        "(depth <= 4): undef, bool, S32, finite reals incl. -0.0, strings (newlines, quotes, backslashes, non-BMP), binary (plain and the library's bytes subclasses), uri, "
         "UUID, datetimes (aware UTC, aware offset, naive; microseconds), dates, lists/tuples, maps, Vector2/3/4, Quaternion -> "
         "binary with/without header, zipped, notation, XML (control), under three process time zones.  Non-trivial = message with a "
         "variable / tree with a container or date/uri/uuid leaf; distinct by content.")
